@@ -145,7 +145,10 @@ PROPS["C03"] = dict(
           "B = (2(n-1)+2)(A+1)P + D + SuspicionMaxTimeoutMult*SuspicionMult*max(1,log10 n)*P re-derived from the configuration; no survivor lists a victim at "
           "the end. (b) probe schedule on fault-free runs: no node probes itself or a non-member, and within every stretch of stable membership its ping "
           "sequence splits into passes visiting every peer exactly once. non-trivial (a) = >=1 crash, >=2 survivors, >=2 (survivor, victim) pairs checked; "
-          "(b) = at least 2n complete passes observed; distinct = distinct plans"),
+          "(b) = at least 2n complete passes observed; (c) expiry race, wall-clock: one real node; a refutation / confirmation / third-party death notice / nothing is queued "
+          "behind the node lock (held by a parked membership callback) before the subject's suspicion timer expires and is served first; afterwards the subject is revived at a higher "
+          "incarnation and accused again (suspect message, or suspect/dead push/pull row): it must be removed again (within 20 s; timeout 80-180 ms), non-trivial = the lock was "
+          "held and the message queued before the expiry; distinct = distinct plans"),
     tests=[
         dict(name="crash", run="^TestCrashDetection$",
              quick=dict(shards=12, checks=25, timeout=900),
@@ -153,8 +156,12 @@ PROPS["C03"] = dict(
         dict(name="sched", run="^TestProbeSchedule$",
              quick=dict(shards=4, checks=100, timeout=900),
              thorough=dict(shards=2, checks=1500, timeout=3400)),
+        dict(name="expiry", run="^TestExpiryRace$",
+             quick=dict(shards=6, checks=8, timeout=900),
+             thorough=dict(shards=8, checks=150, timeout=3400)),
     ],
     assumptions=CLUSTER_ASSUMPTIONS + [
+        "expiry race (c): wall-clock test; 'never detected' means still listed 20 s after a suspicion whose timeout is 80-180 ms",
         "victims do not change metadata shortly before crashing (the bound's start point is the crash)",
         "the run ends adaptively once no survivor lists a victim or holds it alive/suspect; pairs not yet due at the end are counted as not-due, not as passes",
     ],
